@@ -294,6 +294,46 @@ fn point_clouds(r: &mut Report) {
             }
         } }
     }
+    // conversions and the rigid transform keep the arrays the same length (and the colours untouched)
+    for np in [0usize, 1, 3] {
+        let p: Vec<Point3> = (0..np).map(label_point).collect();
+        for nn in [np, np + 1] {
+            r.case();
+            let n: Vec<UnitVec3> = (0..nn).map(label_normal).collect();
+            let how = || format!("PointCloud::try_from(({} points, {} normals))", np, nn);
+            match PointCloud::try_from((&p[..], &n[..])) {
+                Ok(pc) => {
+                    r.check(nn == np, "cloud: try_from(points, normals) rejects arrays of different length", how);
+                    r.check(observe(&pc) == Model { p: p.iter().map(|q| [q.x, q.y, q.z]).collect(), n: Some(n.iter().map(arr).collect()), c: None }, "cloud: try_from(points, normals) keeps the given arrays", how);
+                    lengths_equal(r, &pc, &how);
+                }
+                Err(_) => r.check(nn != np, "cloud: try_from(points, normals) accepts arrays of equal length", how),
+            }
+        }
+        r.case();
+        let how = || format!("conversions from {} points / surface points", np);
+        let pc = PointCloud::from(&p[..]);
+        r.check(observe(&pc) == Model { p: p.iter().map(|q| [q.x, q.y, q.z]).collect(), n: None, c: None }, "cloud: from(points) holds exactly the points", how);
+        lengths_equal(r, &pc, &how);
+        let sps: Vec<SurfacePoint<3>> = (0..np).map(|k| SurfacePoint::new(label_point(k), label_normal(k))).collect();
+        let pc = PointCloud::from(&sps[..]);
+        r.check(observe(&pc) == Model { p: p.iter().map(|q| [q.x, q.y, q.z]).collect(), n: Some((0..np).map(|k| arr(&label_normal(k))).collect()), c: None }, "cloud: from(surface points) holds exactly the points and normals", how);
+        lengths_equal(r, &pc, &how);
+        for (hn, hc) in [(false, false), (true, false), (false, true), (true, true)] {
+            r.case();
+            let (p, n, c, m) = make(0, np, hn, hc);
+            let how = || format!("transform of a cloud with {} points, normals: {}, colours: {}", np, hn, hc);
+            if let Ok(mut pc) = PointCloud::try_new(p, n, c) {
+                let iso = crate::geom3::Iso3::new(Vector3::new(1.0, -2.0, 0.5), Vector3::new(0.0, 0.0, std::f64::consts::FRAC_PI_2));
+                pc.transform(&iso);
+                let o = observe(&pc);
+                lengths_equal(r, &pc, &how);
+                r.check(o.p.len() == m.p.len() && o.n.is_some() == hn && o.c == m.c, "cloud: a rigid transform keeps the number of points, the presence of normals and the colours", how);
+                let moved = (0..np).all(|k| { let q = iso * label_point(k); near(o.p[k][0], q.x) && near(o.p[k][1], q.y) && near(o.p[k][2], q.z) });
+                r.check(moved, "cloud: a rigid transform moves every point by the transform", how);
+            }
+        }
+    }
     // operation sequences
     let mut ops: Vec<Op> = vec![];
     for hn in [false, true] { for hc in [false, true] { ops.push(Op::Append(hn, hc)); } }
@@ -556,6 +596,16 @@ fn mesh_deviations(r: &mut Report) {
         pts.push((Point3::new(s, s, 1.5) + unit(1.0, 1.0, 0.0) * d, 1, d, true));
         pts.push((Point3::new(0.0, 2.5, s) + unit(-0.6, 0.0, 0.8) * d, 1, d, true));
         pts.push((Point3::new(1.0, 0.0, 0.0) + unit(0.0, -0.8, -0.6) * d, 1, d, true));
+    }
+    // outside the solid, closest to a box edge / corner, exactly in the plane of one of the faces meeting there
+    for &d in DISTS.iter() {
+        pts.push((Point3::new(1.5, -d, 0.0), 1, d, true));
+        pts.push((Point3::new(1.5, 0.0, -d), 1, d, true));
+        pts.push((Point3::new(s + d, 2.5, s), 1, d, true));
+        pts.push((Point3::new(s, 2.5, s + d), 1, d, true));
+        pts.push((Point3::new(0.0, s + d, 1.0), 1, d, true));
+        pts.push((Point3::new(s + d, s, s), 1, d, true));
+        pts.push((Point3::new(0.0, 0.0, -d), 1, d, true));
     }
     for (p, kind, d_nom, outside) in pts.iter() {
         let (cp, dist, normals) = closest_on_box(s, p);
